@@ -9,7 +9,7 @@ event nodes.
 """
 import collections, re
 
-from .facts import Graph, TERMQ, family_of, last_field
+from .facts import Graph, TERMQ, family_of, last_field, guard_vars
 
 HIGHER_ORDER = {'visit', 'apply', 'invoke', 'construct_with', 'activate_union_member_with', 'call_once', 'emplace_with',
                 'with_exception_handling', 'try_catch'}
@@ -101,11 +101,12 @@ class Super:
                     if m and int(m.group(1)) in lam_by_line: lam_vars[v['var']] = lam_by_line[int(m.group(1))]
         # scope guards: var -> (decl node, lambda, release nodes)
         guards = {}
+        gv = guard_vars(f)
         for gnode in order:
             e = G.ev[gnode]
             if e.get('k') == 'decl':
                 for v in e['vars']:
-                    if 'scope_guard' in ((v.get('type') or '') + (v.get('wtype') or '')) and v['var'] in lam_vars and lam_vars[v['var']] in self.F.lambdas:
+                    if v['var'] in gv and v['var'] in lam_vars and lam_vars[v['var']] in self.F.lambdas:
                         guards[v['var']] = [gnode, self.F.lambdas[lam_vars[v['var']]], set()]
         guard_resets = {}
         if guards:
@@ -241,10 +242,10 @@ class Super:
         out = []
         def walk(x):
             if isinstance(x, dict):
-                p = x.get('p')
-                if isinstance(p, str):
-                    for m in re.finditer(r'<lambda@(\d+)>', p):
-                        if int(m.group(1)) in lam_by_line: out.append(lam_by_line[int(m.group(1))])
+                for p in (x.get('p'), x.get('name')):
+                    if isinstance(p, str):
+                        for m in re.finditer(r'<lambda@(\d+)>', p):
+                            if int(m.group(1)) in lam_by_line and lam_by_line[int(m.group(1))] not in out: out.append(lam_by_line[int(m.group(1))])
                 for v in x.values(): walk(v)
             elif isinstance(x, list):
                 for v in x: walk(v)
